@@ -93,6 +93,14 @@ Definition selected_pop (n_const : option nat) (order : nat) (specs : kwargs) (a
       | Err => Err
       end
   end.
+(* `order` as the Python int the caller wrote: `constraints[order]` / `parameters[order]` index lists of length n_const, so a negative
+   order counts from the last mode and an order outside [-n_const, n_const) raises IndexError - after validate_constraints' own checks
+   (ValueError); either way the call raises *)
+Definition selected_pop_z (n_const : option nat) (order : Z) (specs : kwargs) (aux : F) : res pop :=
+  match n_const with
+  | None => Ok PIdentity
+  | Some n => match Constraints.resolve n order with Some o => selected_pop (Some n) o specs aux | None => Err end
+  end.
 Definition proximal_operator (n_const : option nat) (order : nat) (specs : kwargs) (aux : F) (rows : list (list F)) : res (list (list F)) :=
   match selected_pop n_const order specs aux with Ok o => Ok (prun o rows) | Err => Err end.
 (* the same for a tensor with [ndim] dimensions: the selected operator may refuse it *)
